@@ -1,0 +1,169 @@
+//! Verification hooks. Compiled only with `--cfg triomphe_verif`; never part of a normal build.
+//!
+//! `atomic` mirrors `core::sync::atomic` but shadows `AtomicUsize` with a transparent wrapper
+//! that performs the real operation with the caller's ordering and reports it, before and
+//! after, to an observer installed with [`set_hook`]. With no observer installed the extra
+//! cost is one relaxed load of a static per operation.
+
+use core::sync::atomic::{AtomicPtr, Ordering};
+
+/// The kind of operation performed on a reference count.
+#[derive(Clone, Copy, Debug, PartialEq, Eq)]
+pub enum Op {
+    Load,
+    Store,
+    Swap,
+    FetchAdd,
+    FetchSub,
+    CompareExchange,
+}
+
+/// One observation: emitted once before (`done == false`) and once after (`done == true`)
+/// every operation on a reference count.
+#[derive(Clone, Copy, Debug)]
+pub struct Event {
+    /// Address of the counter.
+    pub addr: usize,
+    pub op: Op,
+    /// The ordering the caller asked for (success ordering for compare-exchange).
+    pub order: Ordering,
+    pub done: bool,
+    /// Operand (0 for loads).
+    pub arg: usize,
+    /// Value returned by the operation (0 when `done == false`).
+    pub value: usize,
+}
+
+static HOOK: AtomicPtr<()> = AtomicPtr::new(core::ptr::null_mut());
+
+/// Install (or remove) the observer.
+pub fn set_hook(hook: Option<fn(&Event)>) {
+    let p = match hook {
+        Some(f) => f as *mut (),
+        None => core::ptr::null_mut(),
+    };
+    HOOK.store(p, Ordering::Relaxed);
+}
+
+#[inline]
+fn emit(addr: usize, op: Op, order: Ordering, done: bool, arg: usize, value: usize) {
+    let p = HOOK.load(Ordering::Relaxed);
+    if !p.is_null() {
+        // Safety: only `set_hook` stores here, and it stores a `fn(&Event)`.
+        let f: fn(&Event) = unsafe { core::mem::transmute(p) };
+        f(&Event {
+            addr,
+            op,
+            order,
+            done,
+            arg,
+            value,
+        });
+    }
+}
+
+pub mod atomic {
+    pub use core::sync::atomic::*;
+
+    use super::{emit, Op};
+    use core::sync::atomic::AtomicUsize as Real;
+
+    /// Same size, alignment and behaviour as `core::sync::atomic::AtomicUsize`.
+    #[repr(transparent)]
+    pub struct AtomicUsize(Real);
+
+    impl AtomicUsize {
+        #[inline]
+        pub const fn new(v: usize) -> Self {
+            AtomicUsize(Real::new(v))
+        }
+
+        #[inline]
+        fn addr(&self) -> usize {
+            self as *const Self as usize
+        }
+
+        #[inline]
+        pub fn load(&self, order: Ordering) -> usize {
+            emit(self.addr(), Op::Load, order, false, 0, 0);
+            let v = self.0.load(order);
+            emit(self.addr(), Op::Load, order, true, 0, v);
+            v
+        }
+
+        #[inline]
+        pub fn store(&self, val: usize, order: Ordering) {
+            emit(self.addr(), Op::Store, order, false, val, 0);
+            self.0.store(val, order);
+            emit(self.addr(), Op::Store, order, true, val, 0);
+        }
+
+        #[inline]
+        pub fn swap(&self, val: usize, order: Ordering) -> usize {
+            emit(self.addr(), Op::Swap, order, false, val, 0);
+            let v = self.0.swap(val, order);
+            emit(self.addr(), Op::Swap, order, true, val, v);
+            v
+        }
+
+        #[inline]
+        pub fn fetch_add(&self, val: usize, order: Ordering) -> usize {
+            emit(self.addr(), Op::FetchAdd, order, false, val, 0);
+            let v = self.0.fetch_add(val, order);
+            emit(self.addr(), Op::FetchAdd, order, true, val, v);
+            v
+        }
+
+        #[inline]
+        pub fn fetch_sub(&self, val: usize, order: Ordering) -> usize {
+            emit(self.addr(), Op::FetchSub, order, false, val, 0);
+            let v = self.0.fetch_sub(val, order);
+            // The counter may already be freed by another thread here; only its address is used.
+            emit(self.addr(), Op::FetchSub, order, true, val, v);
+            v
+        }
+
+        #[inline]
+        pub fn compare_exchange(
+            &self,
+            current: usize,
+            new: usize,
+            success: Ordering,
+            failure: Ordering,
+        ) -> Result<usize, usize> {
+            emit(self.addr(), Op::CompareExchange, success, false, new, 0);
+            let r = self.0.compare_exchange(current, new, success, failure);
+            let v = match r {
+                Ok(v) | Err(v) => v,
+            };
+            emit(self.addr(), Op::CompareExchange, success, true, new, v);
+            r
+        }
+
+        #[inline]
+        pub fn compare_exchange_weak(
+            &self,
+            current: usize,
+            new: usize,
+            success: Ordering,
+            failure: Ordering,
+        ) -> Result<usize, usize> {
+            emit(self.addr(), Op::CompareExchange, success, false, new, 0);
+            let r = self.0.compare_exchange_weak(current, new, success, failure);
+            let v = match r {
+                Ok(v) | Err(v) => v,
+            };
+            emit(self.addr(), Op::CompareExchange, success, true, new, v);
+            r
+        }
+    }
+
+    // Anything not wrapped above still compiles (unobserved) through the real type.
+    impl core::ops::Deref for AtomicUsize {
+        type Target = Real;
+        #[inline]
+        fn deref(&self) -> &Real {
+            &self.0
+        }
+    }
+}
